@@ -1,7 +1,6 @@
 import Ivg.Lemmas.GenQ
-import Ivg.Gen.Tie.DrawOps
-import Ivg.Gen.Tie.GenerateErrors
-import Ivg.Gen.Tie.Magic
+import Ivg.Gen.Tie.GeneratorFields
+import Ivg.Gen.Tie.MdFields
 import Ivg.Obligations
 /-!
 # C20 — SVG path data in the generator, transforms, and the Material-Design converter
@@ -217,11 +216,23 @@ theorem circle_endpoints (cx r : ℚ) :
 
 end Ivg.Props.C20
 
-#obligations C20 [
-  Ivg.Props.C20.concat_is_composition, Ivg.Props.C20.concat_pair, Ivg.Props.C20.concat_scale_translate,
-  Ivg.Props.C20.normalize_abs_rel, Ivg.Props.C20.xf_eq, Ivg.Props.C20.normalize_hv,
-  Ivg.Props.C20.normalize_no_transform, Ivg.Props.C20.emit_arc,
-  Ivg.Props.C20.md_normalize, Ivg.Props.C20.md_normalize_hv, Ivg.Props.C20.md_map_eq,
-  Ivg.Props.C20.opacity_decision, Ivg.Props.C20.opacity_table, Ivg.Props.C20.opacity_registers,
-  Ivg.Props.C20.circles_two_arcs, Ivg.Props.C20.circle_calls, Ivg.Props.C20.circle_endpoints,
-  Ivg.Gen.Tie.drawOps_tie, Ivg.Gen.Tie.magic_tie, Ivg.Gen.Tie.generateErrors_tie]
+#obligations C20 [Ivg.Props.C20.concat_is_composition,
+  Ivg.Props.C20.concat_pair,
+  Ivg.Props.C20.concat_scale_translate,
+  Ivg.Props.C20.normalize_abs_rel,
+  Ivg.Props.C20.xf_eq,
+  Ivg.Props.C20.normalize_hv,
+  Ivg.Props.C20.normalize_no_transform,
+  Ivg.Props.C20.emit_arc,
+  Ivg.Props.C20.md_normalize,
+  Ivg.Props.C20.md_normalize_hv,
+  Ivg.Props.C20.md_map_eq,
+  Ivg.Props.C20.opacity_decision,
+  Ivg.Props.C20.opacity_table,
+  Ivg.Props.C20.opacity_registers,
+  Ivg.Props.C20.circles_two_arcs,
+  Ivg.Props.C20.circle_calls,
+  Ivg.Props.C20.circle_endpoints,
+  Ivg.Gen.Tie.generator_fields_tie,
+  Ivg.Gen.Tie.mdPath_fields_tie,
+  Ivg.Gen.Tie.mdCircle_fields_tie]
